@@ -39,12 +39,16 @@ def names_for(O, S, m, scheme="plain"):
         sn = {v: f"s{v}" for v in range(S.n)}
     elif scheme == "underscore":
         sn = {v: f"sp_{v}_x" for v in range(S.n)}
+    elif scheme == "unnamed":
+        sn = {v: f"s{v}" for v in range(S.n)}
     else:
-        sn = {v: f"sp\\{v}_a\\b" for v in range(S.n)}
+        # backslashes next to digits, letters and - immediately followed by - an underscore
+        sn = {v: f"sp\\{v}\\_a\\b" for v in range(S.n)}
     on = {}
     for v in range(O.n):
         if O.children[v]:
-            on[v] = f"anc{v}"
+            # "unnamed": ancestors of the object tree carry no name at all (legal through the API)
+            on[v] = "" if scheme == "unnamed" else f"anc{v}"
         elif scheme == "backslash":
             on[v] = f"{sn[m[v]]}_g\\{v}"
         else:
